@@ -72,8 +72,9 @@ def stage_cfgs(pid, tier, rng):
                 if cap == 2:
                     rnd.append(C(inputs=[[1, 2, 3, 4, 5, 6, 7]], n=rng.randint(0, 8), **dict(base, cap=rng.randint(3, 5))))
                 if cap == 1:
-                    # repeated and unordered values (an element is not identified by its value)
+                    # repeated and unordered values (an element is not identified by its value), and the zero value of the element type
                     rnd.append(C(inputs=[[2, 2, 1, 1, 3, 2, 3]], n=rng.randint(1, 8), **base))
+                    rnd.append(C(inputs=[[0, 1, 0, 0, 2, 3, 0]], n=rng.randint(1, 8), **dict(base, pred=[0, 1, 3])))
             # the empty input and a gated run of the user function
             mc.append(C(kind=kind, cap=1, mode="pure", pred=[1, 3], monoid="digits9", inputs=[[]], n=1))
             if kind == "Fold":
@@ -140,6 +141,8 @@ def stage_cfgs(pid, tier, rng):
                     for par in (1, 2, 3):
                         rnd.append(C(kind=kind, forked=True, par=par, cap=1, mode=mode, fail=[1, 2, 4, 5], inputs=[[1, 2, 3, 4, 5, 6]], gate=par == 2))
                 mc.append(C(kind=kind, forked=True, par=2, cap=0, mode="lift", fail=[1, 2], inputs=[[1, 2, 3]], gate=False))
+            rnd.append(C(kind=kind, forked=True, par=2, cap=1, mode="try" if kind in ("Map", "FMap") else "pure", pred=[0, 1], fail=[2] if kind in ("Map", "FMap") else [],
+                         inputs=[[0, 1, 0, 2, 0, 3]], gate=kind != "Void"))
             for par in (4, 8):
                 rnd.append(C(kind=kind, forked=True, par=par, cap=2, mode="try" if kind in ("Map", "FMap") else "pure", pred=[1, 3],
                              fail=[2] if kind in ("Map", "FMap") else [], inputs=[[3, 1, 2, 2, 1, 3, 4, 4]], gate=kind != "Void" and par == 4))
@@ -576,6 +579,7 @@ def other_cfgs(pid, th, rng):
                         out.append(C(kind="Emit", cap=cap, freq=freq, mode=mode, fail=fail, gate=True))
             for step in ("succ", "double", "const"):
                 out.append(C(kind="Unfold", cap=cap, step=step, seed=1, mode="pure", gate=False))
+                out.append(C(kind="Unfold", cap=cap, step=step, seed=0, mode="pure", gate=False))
                 out.append(C(kind="Unfold", cap=cap, step=step, seed=1, mode="lift", fail=[4], gate=True))
                 if pid != "C07":
                     out.append(C(kind="Unfold", cap=cap, step=step, seed=1, mode="try", fail=[2, 3, 103], gate=False))
@@ -597,11 +601,21 @@ def other_cfgs(pid, th, rng):
             for iv in [2, 3]:
                 for cap in [0, 1, 2]:
                     out.append(C(kind="Throttling", cap=cap, ops=ops, interval=iv, inputs=[list(range(1, 9))]))
+                    if ops == 2:
+                        out.append(C(kind="Throttling", cap=cap, ops=ops, interval=iv, inputs=[[0, 0, 1, 1, 0, 2]]))
     if pid == "C08":
         for cap in [0, 1, 2, 3]:
             out.append(C(kind="New", cap=cap, inputs=[list(range(1, 7))]))
-    # fork.Emit / Unfold / Join / Throttling delegate to pipe (through the fork.F -> pipe.F conversion): same expectations
-    out = [dict(c, forked=True) if c["kind"] != "New" and rng.random() < 0.25 else c for c in out]
+            out.append(C(kind="New", cap=cap, inputs=[[0, 0, 1, 1, 0, 2, 2, 0]]))
+    # fork.Emit / Unfold / Join / Throttling delegate to pipe (through the fork.F -> pipe.F conversion): same expectations.
+    # One forked copy of the first configuration of every (kind, mode, gate) group, plus a seeded quarter of the rest.
+    seen_groups, extra = set(), []
+    for c in out:
+        g = (c["kind"], c["mode"], c["gate"])
+        if c["kind"] != "New" and g not in seen_groups:
+            seen_groups.add(g)
+            extra.append(dict(c, forked=True))
+    out = [dict(c, forked=True) if c["kind"] != "New" and rng.random() < 0.2 else c for c in out] + extra
     return out
 
 
